@@ -3,6 +3,10 @@ CONSTANTS
   Kinds = {"finite", "endless"}
   ShowBumpsVersion = TRUE
   TemplateHasQ = TRUE
+  H = 2
+  LensKind = "mixed"
+  WithScroll = FALSE
+  DelayedSetsVersion <- TreeDelayedSetsVersion
 SPECIFICATION Spec
 INVARIANTS TypeOK OneAlive ExitCleanLostKill
 CHECK_DEADLOCK FALSE
